@@ -101,7 +101,11 @@ def gen_flex_ops(t, rng, n_ops):
     for _ in range(n_ops):
         r = rng.random()
         if r < 0.40:
-            ops.append('(push %s)' % gen_init(et, rng, 1))
+            # FlexVec::push_default (the harness routes `(push default)` through it where the item type has FlatDefault)
+            if has_default(et) and rng.random() < 0.2:
+                ops.append('(push default)')
+            else:
+                ops.append('(push %s)' % gen_init(et, rng, 1))
             length += 1     # optimistic
         elif r < 0.52:
             ops.append('(pop)')
